@@ -270,8 +270,18 @@ func c02CheckSign(c c02SignCase) h.Result {
 
 	// ---- (b) canonical R, S < L; (c) verifies under every preset, singly
 	sels := c02Selectors(&c)
+	// "verifies" means through EVERY verification entry point: the plain one and
+	// the one that takes a precomputed (expanded) public key are siblings with
+	// their own copies of the variant handling
 	verify := func(sel int, pk, m, s, cx []byte, hs crypto.Hash) bool {
-		return ed25519.VerifyWithOptions(ed25519.PublicKey(pk), m, s, &ed25519.Options{Hash: hs, Context: string(cx), Verify: c02VOpts(sel, c.Flags)})
+		o := &ed25519.Options{Hash: hs, Context: string(cx), Verify: c02VOpts(sel, c.Flags)}
+		plain := ed25519.VerifyWithOptions(ed25519.PublicKey(pk), m, s, o)
+		if epk, err := ed25519.NewExpandedPublicKey(ed25519.PublicKey(pk)); err == nil {
+			if ed25519.VerifyExpandedWithOptions(epk, m, s, o) != plain {
+				r.Fail("ed25519.VerifyExpandedWithOptions:differs-from-plain", "%s preset=%s pk=%x ctx=%x msglen=%d sig=%x plain=%v", id(), c02PresetNames[sel], pk, cx, len(m), s, plain)
+			}
+		}
+		return plain
 	}
 	for i, sig := range sigs {
 		r.Eval(2)
